@@ -468,3 +468,8 @@ O("C02.instant_soup", ["C02", "C07"], "h_C16.c", "h_C02_instant_soup",
   "instant_soup (RDATE/EXDATE values): a timed value with its own TZID is converted to UTC with its own zone; a value without TZID is taken unchanged",
   ["instant_soup"], solver=["minisat", "kissat"], timeout={"quick": 600, "thorough": 1800}, unwind=6, replay=False, replay_note="echs_instant_utc stub records its zone argument",
   assumptions=["echs_instant_utc replaced by a recording stub (the conversion itself: C07.offs / C07.utc_local)"])
+O("C16.make_evrrul", ["C16", "C07"], "h_C16.c", "h_C16_make_evrrul",
+  "__make_evrrul: the proto event is DTSTART in UTC and the proto offset is the zone offset at that UTC instant, for every zoned DTSTART",
+  ["__make_evrrul"], solver=["minisat", "kissat"], timeout={"quick": 600, "thorough": 1800}, unwind=6, replay=False, replay_note="zone stubs",
+  cbmc_flags=["--malloc-may-fail", "--malloc-fail-null"],
+  assumptions=["echs_instant_utc / echs_tzob_offs replaced by stubs in which the UTC and the wall-clock reading of an instant get different offsets"])
